@@ -1,5 +1,7 @@
 import BigtreeModel.Store
 import BigtreeProofs.Lemmas.StoreStep
+import BigtreeProofs.Lemmas.BinStoreThms
+import BigtreeProofs.Lemmas.DagStoreThms
 /-!
 # C02 — a rejected or failing structural assignment changes nothing (BaseNode / Node part)
 
@@ -101,3 +103,24 @@ theorem prefix_rollback_not_identity :
     (setChildren demoCfg demo 4 [2, 1] .post).1.children 0 = [1, 2, 3] := by decide
 
 end C02
+
+
+/-!
+## BinaryNode and DAGNode parts
+
+The same statements for the two other stores are proved next to their models and are audited
+together with the theorems above (`harness/props/C02.py`, `THEOREMS`):
+
+* `BinStore.setParent_rej_id`, `BinStore.setChildren_rej_id`, `BinStore.setChildren_rej_id_any`,
+  `BinStore.setLeft_rej_id`, `BinStore.setRight_rej_id`, `BinStore.step_rej_id`,
+  `BinStore.step_rej_id_any` (`Lemmas/BinStoreThms.lean`; rejection causes: type, loop, repeated
+  member, full parent, hook raising before / after);
+* `DagStore.setParents_rej_id`, `DagStore.setChildren_rej_id`, `DagStore.step_rej_id`
+  (`Lemmas/DagStoreThms.lean`; the executed roll-back removes exactly the appended tail).
+-/
+#check @BinStore.setParent_rej_id
+#check @BinStore.setChildren_rej_id_any
+#check @BinStore.step_rej_id_any
+#check @DagStore.setParents_rej_id
+#check @DagStore.setChildren_rej_id
+#check @DagStore.step_rej_id
